@@ -3,6 +3,9 @@ import RtenVerif.Lemmas.OnnxRefIndex
 import RtenVerif.Lemmas.OnnxRefConcat
 import RtenVerif.Lemmas.OnnxRefPad
 import RtenVerif.Lemmas.OnnxRefSlice
+import RtenVerif.Lemmas.OnnxRefWhere
+import RtenVerif.Lemmas.OnnxRefArg
+import RtenVerif.Lemmas.OnnxRefTranspose
 /-!
 # C15 — Operators conform to ONNX reference semantics (partial)
 
@@ -113,5 +116,58 @@ theorem c15_expand_eq_broadcast (x : Tensor) (sh : List Int) (y : Tensor) (hnn :
 
 example : (match expand ⟨[2, 1], [1, 2]⟩ [1, 3] with | .ok t => (t.shape, t.data) | .error _ => ([], []))
     = ([2, 3], [1, 1, 1, 2, 2, 2]) := by decide
+
+/-! ## Transpose -/
+
+/-- L11. Transposing with the identity permutation is the identity. -/
+theorem c15_transpose_id (x : Tensor) (hwf : x.data.length = prod x.shape) :
+    transposeP x (List.range x.shape.length) = x := transposeP_id x hwf
+
+/-- L12. Composition: `Transpose(q) ∘ Transpose(p) = Transpose(k ↦ p[q[k]])` for permutations `p`, `q`. -/
+theorem c15_transpose_comp (x : Tensor) (p q : List Nat)
+    (hp : p.Perm (List.range x.shape.length)) (hq : q.Perm (List.range x.shape.length)) :
+    transposeP (transposeP x p) q = transposeP x (q.map (getN p)) := transposeP_comp x p q hp hq
+
+/-- L13. Involution: transposing by `p` then by its inverse `q` (`p[q[k]] = k`) gives the tensor back. -/
+theorem c15_transpose_inverse (x : Tensor) (p q : List Nat) (hwf : x.data.length = prod x.shape)
+    (hp : p.Perm (List.range x.shape.length)) (hq : q.Perm (List.range x.shape.length))
+    (hinv : q.map (getN p) = List.range x.shape.length) :
+    transposeP (transposeP x p) q = x := transposeP_inverse x p q hwf hp hq hinv
+
+example : ([2, 0, 1] : List Nat).Perm (List.range 3) ∧ ([1, 2, 0] : List Nat).Perm (List.range 3) ∧
+    ([1, 2, 0] : List Nat).map (getN [2, 0, 1]) = List.range 3 := by decide
+example : (transposeP ⟨[2, 3], [1, 2, 3, 4, 5, 6]⟩ [1, 0]).data = [1, 4, 2, 5, 3, 6] := by decide
+
+/-! ## Reductions -/
+
+/-- L14. Reduce over all axes (axes omitted) = the fold `f` (sum, product, min, max, …) of the
+row-major element sequence, with result shape `[]`, or `[1,…,1]` of the input's rank with keepdims. -/
+theorem c15_reduce_all (f : List Int → Option Int) (x : Tensor) (v : Int) (keepdims : Bool)
+    (hwf : x.data.length = prod x.shape) (hf : f x.data = some v) :
+    reduce f x none keepdims false = .ok ⟨if keepdims then List.replicate x.rank 1 else [], [v]⟩ :=
+  reduce_all f x v keepdims hwf hf
+
+example : maxL [3, -1, 7, 2] = some 7 ∧ (fun l => some (sumI l)) [3, -1, 7, 2] = some (11 : Int) := by decide
+
+/-- L15. ArgMax with `select_last_index = 0`: the returned index holds a maximum of the lane and every
+earlier position holds a strictly smaller value — the least index among the maxima (the behaviour of
+rten after fix 5e14f6c). -/
+theorem c15_argmax_first (l : List Int) (i : Nat)
+    (h : argBest (fun a b => decide (a > b)) false l = some i) :
+    i < l.length ∧ (∀ j, j < l.length → getI l j ≤ getI l i) ∧ (∀ j, j < i → getI l j < getI l i) :=
+  argBest_max_first l i h
+
+example : argBest (fun a b => decide (a > b)) false [2, -3, 2] = some 0 := by decide
+example : argBest (fun a b => decide (a > b)) true [2, -3, 2] = some 2 := by decide
+
+/-! ## Where -/
+
+/-- L16. `Where` with a constant (scalar) condition is the broadcast of the selected operand: the
+broadcasting binary operator returning its first argument if the condition is true, else its second. -/
+theorem c15_where_const (v : Int) (x y : Tensor) :
+    whereOp (scalar v) x y = binop (fun a b => if v ≠ 0 then a else b) x y := whereOp_scalar v x y
+
+example : (match whereOp (scalar 1) ⟨[2], [5, 6]⟩ ⟨[2, 1], [8, 9]⟩ with | .ok t => (t.shape, t.data) | .error _ => ([], []))
+    = ([2, 2], [5, 6, 5, 6]) := by decide
 
 end RtenVerif.OnnxRef
